@@ -124,6 +124,10 @@ func (s *nhSM) apply(e sm.Entry) sm.Result {
 	if err := json.Unmarshal(e.Cmd, &c); err != nil {
 		return sm.Result{Value: 0}
 	}
+	if d := atomic.LoadInt32(&s.h.lagUs); d > 0 {
+		// this host applies slowly for a while: its applied index falls behind its saved log
+		time.Sleep(time.Duration(d) * time.Microsecond)
+	}
 	s.mu.Lock()
 	defer s.mu.Unlock()
 	prev := s.st.KV[c.K]
